@@ -127,7 +127,9 @@ def finish(run, extra_cov=None, explanation='', assumptions=None, not_decided=No
     """print verdict lines, write evidence + replay files, return exit code"""
     prop = run.prop
     known = load_known()
-    known_keys = {k['key']: k for k in known.get('known', []) if k['property'] == prop}
+    # a finding is identified by its exact key (rule | function | site signature); rules shared between
+    # properties report the same key under each of them
+    known_keys = {k['key']: k for k in known.get('known', [])}
     os.makedirs(os.path.join(EVID, 'replay'), exist_ok=True)
     import glob
     for old_rp in glob.glob(os.path.join(EVID, 'replay', f"{prop}-*.json")):
